@@ -120,14 +120,15 @@ def watch_history(ctx, rng, kind, owning, cfg, nops, given=None):
                 elif queued: op = queued.pop(0)
                 else:
                     k = rng.choice(['load_item', 'rev_add', 'rev_add', 'rev_remove', 'rev_remove', 'add', 'add', 'remove', 'remove', 'remove',
-                                    'len', 'count', 'count', 'flush', 'new_item', 'contains', 'contains', 'contains'])
+                                    'len', 'count', 'count', 'flush', 'new_item', 'contains', 'contains', 'contains',
+                                    'is_empty', 'is_empty', 'bool', 'select'])
                     x = rng.randrange(1, nxt)
                     if k == 'new_item':
                         x = nxt
                         if nxt > N + 3: continue
                     op = {'k': k, 'x': x}
                 k, x = op['k'], op.get('x')
-                pre = []; mop = None; ret = None; exp = None
+                pre = []; mop = None; ret = None; exp = None; cmp_ret = True
                 cache = core.local.db2cache.get(w.db)
                 def flushed_since(was_modified):
                     return bool(was_modified and cache is not None and not cache.modified)
@@ -182,13 +183,36 @@ def watch_history(ctx, rng, kind, owning, cfg, nops, given=None):
                     wasmod = cache is not None and cache.modified
                     ret = owner.coll.count(); exp = len(L); mop = {'k': 'count'}
                     if flushed_since(wasmod): pre.append({'k': 'flush'}); ctx.count('setdata:implicit-flush:count')
+                elif k == 'is_empty':
+                    wasmod = cache is not None and cache.modified
+                    r_ = owner.coll.is_empty(); ret = int(r_); exp = int(not L)
+                    if flushed_since(wasmod): pre.append({'k': 'flush'}); ctx.count('setdata:implicit-flush:is_empty')
+                    mid = w.sd(owner, items)
+                    probe = [i for i in mid['items'] if i not in before['items']]      # the row of SELECT .. LIMIT 1, if the query ran
+                    mop = {'k': 'isEmpty', 'probe': probe[0] if probe else None}
+                    ctx.count('setdata:is_empty:%s' % ('query-row' if probe else ('query-none' if (mid['fully'] and not before['fully']) else 'from-setdata')))
+                elif k == 'bool':
+                    wasmod = cache is not None and cache.modified
+                    if op.get('direct', rng.random() < 0.5 if script is None else False):
+                        op = dict(op, direct=True)
+                        ret = int(owner.coll.__nonzero__()); mop = {'k': 'nonzero'}          # what _delete_ calls
+                    else:
+                        op = dict(op, direct=False)
+                        ret = int(bool(owner.coll)); mop = {'k': 'loadAll'}; cmp_ret = False   # Python 3: bool() goes through __len__, a full load
+                    exp = int(bool(L))
+                    if flushed_since(wasmod): pre.append({'k': 'flush'}); ctx.count('setdata:implicit-flush:bool')
+                elif k == 'select':
+                    ret = len(owner.coll.select()[:]); exp = len(L); mop = {'k': 'select'}       # the model's `select` flushes itself
                 elif k == 'flush':
                     flush(); mop = {'k': 'flush'}
                 after = w.sd(owner, items)
                 # loads the real call did on the way: a full load, or single items that are in the collection
                 adds = mop is not None and mop['k'] in ('revAdd', 'add')
                 takes = mop is not None and mop['k'] in ('revRemove', 'remove')
-                if k == 'contains' and kind == 'm2m': pass
+                post = []
+                if (k == 'contains' and kind == 'm2m') or k in ('is_empty', 'bool'): pass
+                elif k == 'select':
+                    post = [{'k': 'seen', 'x': i} for i in after['items'] if i not in before['items']]      # rows the query fetched
                 elif after['fully'] and not before['fully'] and k != 'len':
                     pre.append({'k': 'loadAll'})
                 else:
@@ -200,7 +224,9 @@ def watch_history(ctx, rng, kind, owning, cfg, nops, given=None):
                         pre.append({'k': 'seen', 'x': x})     # the item was loaded (Set.load(obj, {x}) / its own row) before it was taken out
                 for p in pre: mops.append(p); checks.append(None)
                 if mop is not None:
-                    mops.append(mop); checks.append({'sd': norm_sd(after), 'ret': ret, 'op': op})
+                    mops.append(mop); checks.append({'sd': None if post else norm_sd(after), 'ret': ret if cmp_ret else None, 'op': op})
+                    for q_ in post: mops.append(q_); checks.append(None)
+                    if post: checks[-1] = {'sd': norm_sd(after), 'ret': None, 'op': op}
                 ops.append(op)
                 ctx.count('setdata:op:' + k)
                 ctx.case({'watch': kind, 'owning': owning, 'i': step, 'op': op}, nontrivial=True, kind='setdata-call')
@@ -283,7 +309,7 @@ def setdata_tie(ctx, nhist, nops):
                 ctx.count('setdata:history-cut-at-a-defective-place'); break
             if chk is None: continue
             m = norm_sd(st['sd'])
-            if m != chk['sd']:
+            if chk['sd'] is not None and m != chk['sd']:
                 ctx.divergence('SetData differs after ' + chk['op']['k'], {'watch': kind, 'owning': owning, 'db': r['db'], 'ops': r['ops'], 'model_ops': r['mops'][:i + 1]},
                                model=m, impl=chk['sd']); break
             if chk['ret'] is not None and st['ret'] != chk['ret']:
